@@ -94,9 +94,9 @@ def draw(rng, alg):
         vals = gen.arrange(rng, vals, rng.choice(gen.ORDERS))
         case.update(k=k, values=vals, cls=kind)
     elif kind == "planted":
-        k = rng.randint(2, 8)
-        T = rng.choice([12, 30, 100, 1000, 10 ** 6])
-        vals = gen.planted_partition(rng, k, rng.randint(k, 48), T)
+        k = rng.choice([2, 3, 4, 5, 6, 7, 8, 12, 20])
+        T = rng.choice([12, 30, 100, 1000, 10 ** 6, 2 ** 40])
+        vals = gen.planted_partition(rng, k, rng.randint(k, 48 if k <= 8 else 200), T)
         vals = gen.arrange(rng, vals, rng.choice(gen.ORDERS))
         case.update(k=k, values=vals, cls="planted", planted_T=T)
     elif kind == "lpt_tight":
